@@ -5,7 +5,7 @@ Property theorems only (model: Rpft/Schema, RowParse, RowUnparse, RowSpec; helpe
 Rpft/Lemmas/Row.lean, Codec.lean).  Strings, integers, list lengths and the number of
 fields are unbounded in every theorem.
 -/
-import Rpft.Lemmas.RowSub
+import Rpft.Lemmas.RowElems
 import Rpft.FlowSchema
 import Rpft.Gen.Tables
 set_option linter.unusedSimpArgs false
@@ -94,18 +94,47 @@ theorem parse_unparse_flat_partial (fs : List Field) (lay : Layout) (v : Val)
         exact hfam p.1 hmem
       exact fieldRT_basic (d := p.1.2.2) (hsimple p.1 hmem) (fieldLookup_mem fs hnd p.1 hmem) he hb h
 
-/-- family 2: every field is of a basic type, a list of strings, or a sub-record (without
-header remaps) of basic-typed fields with distinct simple names -/
+/-- family 2: every field is of a basic type, a list of basic values, a sub-record (without
+header remaps) of basic-typed fields with distinct simple names, or a list of such
+sub-records -/
 def famTy : Ty → Bool
-  | .list .str => true
+  | .list (.model sfs [] []) => subFamily sfs
+  | .list t => isBasicTy t
   | .model sfs [] [] => subFamily sfs
   | t => isBasicTy t
 
 def family (fs : List Field) : Bool := fs.all fun f => famTy f.2.1
 
+/-- layouts in which every element of a list of sub-records is packed into its own cell
+`f.1, f.2, …` (what the target header `f.*` does, see `matches_star_index`); the elements of
+such a list are not proved spread over `f.1.a, f.1.b, …` -/
+def ElemsPacked (lay : Layout) (fs : List Field) : Prop :=
+  ∀ n sfs d, (n, Ty.list (plainTop sfs), d) ∈ fs →
+    ∀ i, matchesHeaders (idxPrefix ('.' :: n) i) lay.targets = true
+
+theorem packDepth_list_model (sfs : List Field) (h2f f2h : List (Str × Str)) :
+    ¬ packDepth (.list (.model sfs h2f f2h)) ≤ 2 := by
+  simp [packDepth]; omega
+
+theorem admFields_mem (targets : List Str) (f2h : List (Str × Str)) (pfx : Str) :
+    ∀ (fs : List Field), admFields targets f2h pfx fs = true → ∀ f ∈ fs, remap f2h f.1 = f.1 →
+      admTy targets f.2.1 (pfx ++ '.' :: f.1) = true
+  | [], _, f, h, _ => by simp at h
+  | (n, t, d) :: rest, ha, f, h, hr => by
+    simp only [admFields, Bool.and_eq_true] at ha
+    simp only [List.mem_cons] at h
+    rcases h with rfl | h
+    · have := ha.1
+      simp only [hr, if_true] at this
+      exact this
+    · exact admFields_mem targets f2h pfx rest ha.2 f h hr
+
 theorem fieldRT_fam {lay : Layout} {fs : List Field} {n : Str} {ty : Ty} {d : Option Val} {v : Val}
     (hn : simpleName n = true) (hf : fieldLookup n fs = some (n, ty, d)) (he : lay.excluded = [])
-    (hfam : famTy ty = true) (hfo : fieldOk false ty v = true) (hr : reprOk false ty v = true) :
+    (hfam : famTy ty = true) (hfo : fieldOk false ty v = true) (hr : reprOk false ty v = true)
+    (hadm : admTy lay.targets ty ('.' :: n) = true)
+    (hpk : ∀ sfs, ty = .list (plainTop sfs) →
+      ∀ i, matchesHeaders (idxPrefix ('.' :: n) i) lay.targets = true) :
     FieldRT lay fs n ty v := by
   cases ty with
   | str => exact fieldRT_basic hn hf he rfl hr
@@ -114,15 +143,49 @@ theorem fieldRT_fam {lay : Layout} {fs : List Field} {n : Str} {ty : Ty} {d : Op
   | bool => exact fieldRT_basic hn hf he rfl hr
   | anyList => simp [famTy, isBasicTy] at hfam
   | list t =>
-    cases t <;> simp [famTy, isBasicTy] at hfam
     cases v <;> simp [reprOk] at hr
-    case str.list xs =>
-      obtain ⟨ss, rfl, hss⟩ := list_str_repr xs (List.all_eq_true.mpr hr)
-      have hne : ss ≠ [] := by
+    case list xs =>
+      have hne : xs ≠ [] := by
         intro e; subst e; simp [fieldOk] at hfo
       cases hm : matchesHeaders ('.' :: n) lay.targets with
-      | true => exact fieldRT_listStr_packed hn hf he hm ss hne hss
-      | false => exact fieldRT_listStr_spread hn hf he hm ss hne hss
+      | true =>
+        cases t with
+        | model sfs h2f f2h =>
+          exfalso
+          unfold admTy at hadm
+          simp only [isBasicTy, Bool.false_eq_true, if_false, hm, if_true, decide_eq_true_eq] at hadm
+          exact packDepth_list_model sfs h2f f2h hadm
+        | str => exact fieldRT_listBasic_packed rfl hn hf he hm xs hne hr
+        | int => exact fieldRT_listBasic_packed rfl hn hf he hm xs hne hr
+        | float => exact fieldRT_listBasic_packed rfl hn hf he hm xs hne hr
+        | bool => exact fieldRT_listBasic_packed rfl hn hf he hm xs hne hr
+        | anyList => simp [famTy, isBasicTy] at hfam
+        | list _ => simp [famTy, isBasicTy] at hfam
+      | false =>
+        cases t with
+        | model sfs h2f f2h =>
+          cases h2f <;> cases f2h <;> simp [famTy, isBasicTy] at hfam
+          have hes : (xs.map (elemOfSub sfs)).map (·.1) = xs := by
+            rw [List.map_map]
+            conv => rhs; rw [← List.map_id xs]
+            exact List.map_congr_left (fun x _ => elemOfSub_fst sfs x)
+          rw [← hes]
+          exact fieldRT_list_elems hn hf he hm _ (by simpa using hne) (by
+            intro e hmem
+            obtain ⟨x, hx, rfl⟩ := List.mem_map.mp hmem
+            exact elemOk_sub he n hfam (hr x hx) (hpk sfs rfl))
+        | anyList => simp [famTy, isBasicTy] at hfam
+        | list _ => simp [famTy, isBasicTy] at hfam
+        | str | int | float | bool =>
+          have hes : (xs.map elemOfBasic).map (·.1) = xs := by
+            rw [List.map_map]
+            conv => rhs; rw [← List.map_id xs]
+            exact List.map_congr_left (fun x _ => rfl)
+          rw [← hes]
+          exact fieldRT_list_elems hn hf he hm _ (by simpa using hne) (by
+            intro e hmem
+            obtain ⟨x, hx, rfl⟩ := List.mem_map.mp hmem
+            exact elemOk_basic he n rfl (hr x hx))
   | model sfs h2f f2h =>
     cases h2f <;> cases f2h <;> simp [famTy, isBasicTy] at hfam
     cases v with
@@ -133,24 +196,28 @@ theorem fieldRT_fam {lay : Layout} {fs : List Field} {n : Str} {ty : Ty} {d : Op
       | false => exact fieldRT_sub_spread hn hf he hm D
     | _ => simp [reprOk] at hr
 
-/-- **Records of basic fields, lists of strings and one level of sub-records, in every
-layout**: each list / sub-record field independently spread over one column per leaf
-(`f.1, f.2, …` / `f.a, f.b, …`) or packed into a single cell (`x|y|z` / `a;va|b;vb`),
-as selected by ANY target-header set; any number of fields, unbounded strings, integers
-and list lengths; default-valued fields elided and restored. -/
+/-- **Records of basic fields, lists of basic values, sub-records and lists of sub-records,
+in every layout of the family**: each list of basic values independently spread over
+`f.1, f.2, …` or packed into one cell `x|y|z`; each sub-record spread over `f.a, f.b, …` or
+packed as `a;va|b;vb`; each list of sub-records with its elements packed one per cell
+(`f.*`); as selected by ANY admissible target-header set; any number of fields, unbounded
+strings, integers and list lengths; default-valued fields elided and restored. -/
 theorem parse_unparse_partial (fs : List Field) (lay : Layout) (v : Val)
     (hwf : wfFieldNames fs = true) (hfam : family fs = true)
     (hr : Representable (plainTop fs) v = true)
-    (ha : Admissible { top := plainTop fs } lay = true) :
+    (ha : Admissible { top := plainTop fs } lay = true) (hpk : ElemsPacked lay fs) :
     RoundTrip { top := plainTop fs } lay v := by
   cases v <;> simp [Representable] at hr
   case model kvs =>
     obtain ⟨hnames, hrf⟩ := hr
     simp only [wfFieldNames, Bool.and_eq_true, List.all_eq_true, decide_eq_true_eq] at hwf
     obtain ⟨hsimple, hnd⟩ := hwf
-    have he : lay.excluded = [] := by
-      simp only [Admissible, Bool.and_eq_true, List.isEmpty_iff] at ha
-      exact ha.1
+    simp only [Admissible, Bool.and_eq_true, List.isEmpty_iff] at ha
+    have he : lay.excluded = [] := ha.1
+    have hadm : admFields lay.targets [] [] fs = true := by
+      have := ha.2
+      unfold admTy at this
+      simpa [isBasicTy, matchesHeaders] using this
     apply parse_unparse_of_fields lay fs kvs hnames hnd
     intro p hp hdef
     have hmem : p.1 ∈ fs := (List.of_mem_zip hp).1
@@ -163,7 +230,10 @@ theorem parse_unparse_partial (fs : List Field) (lay : Layout) (v : Val)
     · have hb : famTy p.1.2.1 = true := by
         simp only [family, List.all_eq_true] at hfam
         exact hfam p.1 hmem
+      have hadm' := admFields_mem lay.targets [] [] fs hadm p.1 hmem (remap_nil _)
+      simp only [List.nil_append] at hadm'
       exact fieldRT_fam (d := p.1.2.2) (hsimple p.1 hmem) (fieldLookup_mem fs hnd p.1 hmem) he hb hfo h
+        hadm' (fun sfs hty i => hpk p.1.1 sfs p.1.2.2 (by rw [← hty]; exact hmem) i)
 
 /-- flat records are the special case -/
 theorem flat_in_family (fs : List Field) (h : flatFamily fs = true) : family fs = true := by
@@ -235,6 +305,10 @@ def exLayouts : List Layout :=
   [{}, { targets := ["xs".toList] }, { targets := ["s".toList] },
    { targets := ["xs".toList, "s".toList, "ys".toList] }, { targets := ["*".toList] }]
 
+theorem exFam_elemsPacked (lay : Layout) : ElemsPacked lay exFam := by
+  intro n sfs d hmem
+  simp [exFam] at hmem
+
 /-- the hypotheses of `parse_unparse_partial` hold for a non-trivial value in five layouts
 (all spread, only the list packed, only the sub-record packed, everything packed, `*`) -/
 example : wfFieldNames exFam = true ∧ family exFam = true ∧
@@ -298,5 +372,40 @@ theorem spread_untyped_list_of_lists_fails :
     roundTrips { top := plainTop [("u".toList, .anyList, some (.any []))] } { targets := ["u".toList] }
       (.model [("u".toList, .any [.list [.atom "k".toList, .atom "v".toList]])]) = true := by
   decide +kernel
+
+/-! #### lists of numbers and lists of sub-records -/
+
+def exItems : List Field :=
+  [("name".toList, .str, none), ("ns".toList, .list .int, some (.list [])),
+   ("items".toList, .list (plainTop exSub), some (.list []))]
+
+def exItemsVal : Val :=
+  .model [("name".toList, .str "n".toList), ("ns".toList, .list [.int 10, .int (-3)]),
+    ("items".toList, .list [
+      .model [("p".toList, .str "a;b".toList), ("q".toList, .int 0), ("w".toList, .bool true),
+        ("z".toList, .str "zz".toList)],
+      .model [("p".toList, .str []), ("q".toList, .int 12), ("w".toList, .bool false),
+        ("z".toList, .str "y|".toList)]])]
+
+def exItemsLay : Layout := { targets := ["items.*".toList] }
+
+/-- non-vacuity for lists of integers and lists of sub-records packed one per cell by the
+target header `items.*` (`ElemsPacked` holds for every index, by `matches_star_index`) -/
+example : wfFieldNames exItems = true ∧ family exItems = true ∧
+    Representable (plainTop exItems) exItemsVal = true ∧
+    Admissible { top := plainTop exItems } exItemsLay = true ∧
+    roundTrips { top := plainTop exItems } exItemsLay exItemsVal = true := by decide +kernel
+
+example : ElemsPacked exItemsLay exItems := by
+  intro n sfs d hmem i
+  have hn : n = "items".toList := by
+    simp [exItems] at hmem
+    exact hmem.1
+  subst hn
+  exact matches_star_index (by decide) _ (by decide) i
+
+/-- without `items.*` the elements are spread over `items.1.p, …`: outside the proved family
+(the general statement `C07_full` covers it; the model and the real code do round-trip) -/
+example : roundTrips { top := plainTop exItems } {} exItemsVal = true := by decide +kernel
 
 end Rpft.Props.C07
